@@ -44,6 +44,7 @@ def gen_cases(tier: str, seed: int) -> List[Dict[str, Any]]:
                       # how the parameters reach the optimizer: flat iterable, or ONE explicit group in which the layer under test
                       # comes after the parameters of another layer
                       "group_form": rng.choice(["flat", "flat", "one-group", "groups-of-one"]),
+                      "tied": rng.random() < 0.2,  # depth container holding the SAME layer instance in every slot (weight tying)
                       "seed": derive_seed(seed, PROPERTY, "s", i) % (2**31)})
     return cases
 
@@ -70,8 +71,11 @@ def run_case(case: Dict[str, Any], ctx) -> None:
     depth = case["depth"]
     holder = layer
     if depth is not None:
+        tied = case.get("tied") and kind == "Linear" and fi == fo and depth > 1
         pads = [uu.Linear(1, 1, dtype=torch.float64) for _ in range(depth - 1)]
         mods = [layer] + pads
+        if case.get("tied") and depth > 1:
+            mods = [layer] * depth  # the container applies one layer `depth` times; its depth is still len(container)
         holder = uu.DepthSequential(*mods) if case["container"] == "DepthSequential" else uu.DepthModuleList(mods)
         if layer.weight.mup_scaling_depth != depth:
             ctx.violation("C12:depth-not-recorded", f"container of {depth} modules recorded depth {layer.weight.mup_scaling_depth}")
